@@ -108,7 +108,7 @@ func genWellFormed(t *rapid.T) []byte {
 	case 8:
 		return MsgAccessRequest()
 	case 9:
-		id := rapid.SampledFrom([]string{`"client-id"`, `"server-id"`, `"other"`, `""`, ``, `null`, `17`, `[{"x":1}]`, `true`}).Draw(t, "amid")
+		id := rapid.SampledFrom([]string{`"client-id"`, `"server-id"`, `"other"`, `""`, ``, `null`, `17`, `[{"x":1}]`, `true`, `"a\\b\"c\u0041\\"`}).Draw(t, "amid")
 		return MsgAccessMethods(id)
 	case 10:
 		phase := rapid.SampledFrom([]string{"announce", "confirm", "junk", ""}).Draw(t, "closePhase")
@@ -122,7 +122,7 @@ func genWellFormed(t *rapid.T) []byte {
 	}
 }
 
-var hostileTokens = []string{`[]`, `[ ]`, `{}`, `null`, `[{`, `}]`, `},{`, `"`, `\`, "\x00", `[[[[`, `]]]]`, `-1`, `1e999`, `18446744073709551616`, `datagram`, `"accessMethodsRequest":{`, `"accessMethods":{`, `{"place":"holder"}`, ` `, `,`, `:`}
+var hostileTokens = []string{`\`, `"\`, `"a\`, `\u`, `"\u00`, `\"`, `[]`, `[ ]`, `{}`, `null`, `[{`, `}]`, `},{`, `"`, `\`, "\x00", `[[[[`, `]]]]`, `-1`, `1e999`, `18446744073709551616`, `datagram`, `"accessMethodsRequest":{`, `"accessMethods":{`, `{"place":"holder"}`, ` `, `,`, `:`}
 
 // mutate applies one structured mutation to a message.
 func mutate(t *rapid.T, m []byte) []byte {
@@ -130,7 +130,9 @@ func mutate(t *rapid.T, m []byte) []byte {
 		return []byte{1, 0}
 	}
 	out := append([]byte(nil), m...)
-	switch rapid.IntRange(0, 9).Draw(t, "mutKind") {
+	switch rapid.IntRange(0, 11).Draw(t, "mutKind") {
+	case 10, 11: // the frame ends inside a string, right after a backslash or an incomplete escape
+		out = append(out, rapid.SampledFrom([]string{`\`, `"\`, `"x\`, `"\u`, `"\u00`, `,{"k":"v\`}).Draw(t, "tail")...)
 	case 0: // truncate
 		out = out[:rapid.IntRange(0, len(out)).Draw(t, "cut")]
 	case 1: // header byte
